@@ -73,6 +73,12 @@ CLAIMED = {
                 "Bundled noop and dylib backends in both TLS configurations: five nested call trees (invoke->callback->invoke(other sandbox)->callback, then "
                 "another callback of the outer sandbox) dispatch exactly the registered functions with the right sandbox.",
             "Guest code is stubs; nesting depth <=3.", "DESIGN.md 4/C12"),
+    "C11": (MC, "Foreign-ABI multi-instance backend in by-name lookup mode (real per-instance std::map<std::string,void*> cache): 5 signatures (0..6 "
+                "parameters) x 3 argument wrapper forms with all argument/result values symbolic: the guest stub of that instance's library is called exactly "
+                "once with every argument's guest-ABI image (or the call aborts before it iff some argument is unrepresentable) and the result comes back "
+                "converted; two live instances exporting the same name in both lookup orders; function address before and after an invocation; noop "
+                "static-call mode.",
+            "Struct-by-value and callback parameters are covered by C08/C12.", "DESIGN.md 4/C11"),
     "C05": (MC, "p+n, p-n, +=, -=, ++/-- (pre/post), p[n], &p[n] for 8 pointee types x integer index types (plain, tainted, tainted_volatile) on LP32/LP16 "
                 "model backends with symbolic region base, pointer and full-width index: returns iff the exact 128-bit address p+/-n*s_guest is inside "
                 "the region and then returns exactly it, else aborts; null aborts.",
